@@ -241,6 +241,11 @@ def m1Command (v : Variant) : Sexp → Option String
       match parseExpr e with
       | some e => "(syms" ++ String.join ((free e).map (fun s => " " ++ showSym s)) ++ ")"
       | none => "err parse"
+  | .list (.atom "evalatwf" :: e :: env) => some <|
+      -- value of a term that satisfies the hypothesis `wfSums` of the theorems, else `nwf` (one parse)
+      match parseExpr e, parseEnv env with
+      | some e, some env => if wfSums e then showQ (eval stdInterp e (envOf env)) else "nwf"
+      | _, _ => "err parse"
   | .list (.atom "evalat" :: e :: env) => some <|
       match parseExpr e, parseEnv env with
       | some e, some env => showQ (eval stdInterp e (envOf env))
